@@ -3,79 +3,13 @@ from hist import *
 import re
 
 
-def _match_brace(src, i):
-    """src[i] == '{' -> index of the matching '}'"""
-    depth = 0
-    for j in range(i, len(src)):
-        if src[j] == "{":
-            depth += 1
-        elif src[j] == "}":
-            depth -= 1
-            if depth == 0:
-                return j
-    raise ValueError("unbalanced")
+from srcshape import shared_shape, write_shape_v
 
 
-def shared_shape():
-    """source-derived: for every trait method of SharedCore, is its body a single critical section
-    `async move { let [mut] core = [&]self.0.lock().await; <one expression using core> }` (or the
-    one-expression form `self.0.lock().await.method()`) ?"""
-    src = open(os.path.join(REPO, "src", "replication", "shared_core.rs")).read()
-    src = src.split("#[cfg(test)]")[0]
-    out = []
-    for im in re.finditer(r"impl\s+(\w+)\s+for\s+SharedCore\s*\{", src):
-        end = _match_brace(src, im.end() - 1)
-        block = src[im.end():end]
-        pos = 0
-        while True:
-            fm = re.search(r"\bfn\s+(\w+)", block[pos:])
-            if not fm:
-                break
-            name = fm.group(1)
-            # the signature ends at the first '{' that is not inside <...> or (...): find "async move" after it
-            sig_start = pos + fm.end()
-            am = re.search(r"\{\s*async move\s*\{", block[sig_start:])
-            if not am:
-                pos = sig_start
-                continue
-            body_open = sig_start + am.end() - 1
-            body_close = _match_brace(block, body_open)
-            body = block[body_open + 1:body_close]
-            fn_close = _match_brace(block, sig_start + am.start())
-            stmts = [x.strip() for x in body.strip().split(";") if x.strip()]
-            locks = len(re.findall(r"\.lock\(\)", body))
-            atomic = False
-            if locks == 1:
-                if len(stmts) == 2 and re.match(r"let\s+(mut\s+)?core\s*=\s*&?\s*(mut\s+)?self\.0\.lock\(\)\.await$", stmts[0]) \
-                        and ".await" not in stmts[1].replace("core.", "", 1).split(".await")[0] \
-                        and stmts[1].count(".await") <= 1 and "self.0" not in stmts[1]:
-                    atomic = True
-                elif len(stmts) == 1 and re.match(r"self\.0\.lock\(\)\.await\.\w+\(\)$", stmts[0]):
-                    atomic = True
-            out.append((name, atomic, locks))
-            pos = fn_close + 1
-    return out
-
-
-def write_shape_v(shape):
-    path = os.path.join(COQ, "SharedShape.v")
-    body = "(* generated on every run by tools/c15.py from /repo/src/replication/shared_core.rs *)\n" \
-           "From Coq Require Import List String Bool.\nImport ListNotations.\nLocal Open Scope string_scope.\n" \
-           "Definition shared_shape : list (string * bool) :=\n  [" + \
-           ";\n   ".join('("%s", %s)' % (n, "true" if a else "false") for (n, a, _) in shape) + "].\n"
-    old = open(path).read() if os.path.exists(path) else None
-    if old != body:
-        open(path, "w").write(body)
-
-
-def linearizable(records):
-    """records: list of dict(task, idx, start, end, call, result). Sequential spec: list of blocks."""
-    n = len(records)
-    recs = sorted(records, key=lambda x: x["start"])
-
-    def apply(state, rec):
-        call = rec["call"].split(" ")
-        blocks = state
+def writer_spec():
+    """fresh writer core: the state is the tuple of blocks"""
+    def step(blocks, callstr):
+        call = callstr.split(" ")
         if call[0] == "append":
             nb = blocks + (unhex(call[1]),)
             return nb, "ok %d %d" % (len(nb), sum(len(b) for b in nb))
@@ -90,7 +24,45 @@ def linearizable(records):
             return blocks, "ok %d" % (1 if int(call[1]) < len(blocks) else 0)
         if call[0] == "info":
             return blocks, "ok %d %d %d 0 1" % (len(blocks), sum(len(b) for b in blocks), len(blocks))
+        if call[0] in ("missing", "prove"):
+            return blocks, None
         raise ValueError(call)
+    return (), step
+
+
+def replica_spec(blocks, have):
+    """replica that knows the whole tree of the writer's `blocks` (length and byte length are fixed); the state is
+    the set of held indices"""
+    n, nbytes = len(blocks), sum(len(b) for b in blocks)
+
+    def step(held, callstr):
+        call = callstr.split(" ")
+        if call[0] == "apply":
+            i = int(call[1])
+            return (held if i in held else held | frozenset([i])), "ok 1"
+        if call[0] == "get":
+            i = int(call[1])
+            return held, ("ok some " + hexb(blocks[i])) if i in held else "ok none"
+        if call[0] == "has":
+            return held, "ok %d" % (1 if int(call[1]) in held else 0)
+        if call[0] == "info":
+            c = 0
+            while c in held:
+                c += 1
+            return held, "ok %d %d %d 0 0" % (n, nbytes, c)
+        if call[0] in ("missing", "prove"):
+            return held, None
+        raise ValueError(call)
+    return frozenset(have), step
+
+
+def linearizable(records, spec=None):
+    """records: list of dict(task, idx, start, end, call, result); spec = (initial state, step). Is there a total
+    order of the calls that respects program order and real-time order (a call that ended before another one started
+    comes first) and in which every call gets the answer the sequential specification gives?"""
+    init, step = spec or writer_spec()
+    n = len(records)
+    recs = sorted(records, key=lambda x: x["start"])
     seen = set()
 
     def dfs(done, state):
@@ -108,33 +80,222 @@ def linearizable(records):
                 continue
             if any(recs[j]["task"] == recs[i]["task"] and recs[j]["idx"] < recs[i]["idx"] for j in pending):
                 continue
-            st2, expect = apply(state, recs[i])
-            if expect == recs[i]["result"]:
+            st2, expect = step(state, recs[i]["call"])
+            if expect is None or expect == recs[i]["result"]:
                 if dfs(done | frozenset([i]), st2):
                     return True
         return False
-    return dfs(frozenset(), ())
+    return dfs(frozenset(), init)
 
 
-def gen_tasks(r, nt, nc):
+def append_chain_problem(records):
+    """direct form of 'append outcomes form a gap-free increasing sequence of lengths' (writer mode): the outcomes,
+    sorted, chain up: each length = previous length + the call's number of blocks (same for the byte lengths).
+    Returns a message or None."""
+    outs = []
+    for x in records:
+        call = x["call"].split(" ")
+        if call[0] not in ("append", "appendb"):
+            continue
+        if not x["result"].startswith("ok "):
+            return None          # an append failed: judged by the linearizability check only
+        data = [unhex(h) for h in call[1].split(",")] if len(call) > 1 and call[1] else []
+        _, ln, bl = x["result"].split(" ")
+        outs.append((int(ln), -len(data), int(bl), sum(len(b) for b in data), x))
+    outs.sort(key=lambda o: o[:2])
+    prev_len = prev_bytes = 0
+    for (ln, negk, bl, nbytes, x) in outs:
+        if ln != prev_len - negk or bl != prev_bytes + nbytes:
+            return ("append outcomes do not chain up gap-free: task %d call %d (`%s`, %d block(s), %d byte(s)) answered "
+                    "length %d byte_length %d, but the next smaller outcome is length %d byte_length %d; all outcomes "
+                    "(length, blocks): %s" % (x["task"], x["idx"], x["call"][:40], -negk, nbytes, ln, bl, prev_len,
+                                              prev_bytes, [(o[0], -o[1]) for o in outs]))
+        prev_len, prev_bytes = ln, bl
+    return None
+
+
+# ----------------------------------------------------------------------------------------------
+# commands and verdicts
+# ----------------------------------------------------------------------------------------------
+
+def tasks_text(tasks):
+    return " | ".join(" ; ".join(c) for c in tasks)
+
+
+def sched_cmd(seed, tasks, slow=0):
+    return "sched S %d %d %s%s" % (seed, len(tasks), "slow=%d " % slow if slow else "", tasks_text(tasks))
+
+
+def schedr_cmd(seed, tasks, blocks, have=(), slow=0):
+    return "schedr S %d %d blocks=%s %s%s%s" % (
+        seed, len(tasks), ",".join(hexb(b) for b in blocks),
+        "have=%s " % ",".join(str(i) for i in sorted(have)) if have else "",
+        "slow=%d " % slow if slow else "", tasks_text(tasks))
+
+
+def parse_cmd(cmd):
+    """-> (mode, options, tasks); the inverse of sched_cmd / schedr_cmd"""
+    w = cmd.split(" ")
+    mode, nt = w[0], int(w[3])
+    k, opts = 4, {}
+    while k < len(w) and re.match(r"(slow|blocks|have)=", w[k]):
+        key, val = w[k].split("=", 1)
+        opts[key] = val
+        k += 1
+    rest = " ".join(w[k:])
+    tasks = [[c.strip() for c in t.split(";") if c.strip()] for t in rest.split("|")] if nt else []
+    return mode, opts, tasks
+
+
+def judge(cmd, a):
+    """verdict on the answer `a` of a scheduler command: None or dict(key, what)"""
+    mode, opts, tasks = parse_cmd(cmd)
+    if not a.startswith("ok"):
+        return dict(key="sched:crash", what="concurrent run answered " + a[:200])
+    recs = []
+    for tok in a.split(" ")[1:]:
+        t, i, s, e, rest = tok.split(".", 4)
+        recs.append(dict(task=int(t), idx=int(i), start=int(s), end=int(e), result=rest.replace(",", " "),
+                         call=tasks[int(t)][int(i)]))
+    total = sum(len(t) for t in tasks)
+    if len(recs) != total:
+        return dict(key="sched:lost-call", what="%d of %d calls completed" % (len(recs), total))
+    if mode == "schedr":
+        blocks = [unhex(h) for h in opts["blocks"].split(",")]
+        have = [int(i) for i in opts["have"].split(",")] if opts.get("have") else []
+        spec = replica_spec(blocks, have)
+        for x in recs:
+            if x["call"].startswith("apply ") and x["result"] != "ok 1":
+                return dict(key="sched:apply-refused", ncalls=total,
+                            what="task %d call %d: verify_and_apply_proof of the valid, self-contained proof of block %s "
+                                 "answered `%s` in a concurrent run (every sequential order answers `ok 1` and makes the "
+                                 "block readable): %s" % (x["task"], x["idx"], x["call"].split(" ")[1], x["result"], a[:300]))
+    else:
+        spec = writer_spec()
+        msg = append_chain_problem(recs)
+        if msg:
+            return dict(key="sched:append-gap", what=msg, ncalls=total)
+    if not linearizable(recs, spec):
+        return dict(key="sched:not-linearizable", ncalls=total,
+                    what="no sequential order of the calls explains the results (%s): %s"
+                         % ("replica of %d blocks" % len(blocks) if mode == "schedr" else "writer", a[:300]))
+    return None
+
+
+# ----------------------------------------------------------------------------------------------
+# generators
+# ----------------------------------------------------------------------------------------------
+
+BIG = [8, 9, 12, 16, 17, 20, 24]
+
+
+def batch_call(t, k):
+    return "appendb " + ",".join(hexb(bytes([97 + t, j])) for j in range(k)) if k else "appendb"
+
+
+def gen_tasks(r, nt, nc, big=0.2):
+    """writer mode; `big`: share of the batches that have 8..24 blocks (SharedCore must write a batch of any size in
+    one critical section)"""
+    tasks = []
+    hi = 6
+    for t in range(nt):
+        calls = []
+        for _ in range(r.randrange(1, nc + 1)):
+            c = r.random()
+            if c < 0.42:
+                calls.append("append %s" % hexb(bytes([65 + t]) * r.choice([1, 2, 3])))
+            elif c < 0.6:
+                k = r.choice(BIG) if r.random() < big else r.choice([0, 2, 3])
+                hi = max(hi, k + 4)
+                calls.append(batch_call(t, k))
+            elif c < 0.78:
+                calls.append("get %d" % r.randrange(0, hi))
+            elif c < 0.86:
+                calls.append("has %d" % r.randrange(0, hi))
+            elif c < 0.94:
+                calls.append("info")
+            elif c < 0.97:
+                calls.append("missing %d" % r.randrange(0, hi))
+            else:
+                calls.append("prove %d" % r.randrange(0, hi))
+        tasks.append(calls)
+    return tasks
+
+
+def gen_big_batch_tasks(r):
+    """writer mode, aimed at long critical sections: one task writes a batch of 17..33 blocks, 1-2 other tasks issue
+    short calls meanwhile"""
+    nt = r.choice([2, 2, 3])
+    k = r.choice([17, 18, 20, 24, 24, 25, 33])
+    first = [batch_call(0, k)]
+    if r.random() < 0.3:
+        first.insert(0, "append %s" % hexb(b"A"))
+    tasks = [first]
+    for t in range(1, nt):
+        calls = []
+        for _ in range(r.randrange(1, 4)):
+            c = r.random()
+            if c < 0.45:
+                calls.append("append %s" % hexb(bytes([65 + t]) * r.choice([1, 2])))
+            elif c < 0.55:
+                calls.append(batch_call(t, r.choice([2, 3, 9])))
+            elif c < 0.75:
+                calls.append("info")
+            elif c < 0.9:
+                calls.append("get %d" % r.randrange(0, k + 2))
+            else:
+                calls.append("has %d" % r.randrange(0, k + 2))
+        tasks.append(calls)
+    return tasks
+
+
+def gen_replica_world(r, nt, nc):
+    """replica mode: -> (blocks, have, tasks)"""
+    n = r.choice([2, 3, 4, 5, 5, 6, 7, 8, 8, 11, 16, 17])
+    blocks = [bytes([97 + i % 26]) * r.choice([1, 2, 3]) for i in range(n)]
+    have = sorted(i for i in range(n) if r.random() < 0.2)
     tasks = []
     for t in range(nt):
         calls = []
         for _ in range(r.randrange(1, nc + 1)):
             c = r.random()
+            i = r.randrange(0, n)
+            j = i if r.random() < 0.85 else r.randrange(n, n + 3)
             if c < 0.45:
-                calls.append("append %s" % hexb(bytes([65 + t]) * r.choice([1, 2, 3])))
-            elif c < 0.6:
-                k = r.choice([0, 2, 3])
-                calls.append("appendb " + ",".join(hexb(bytes([97 + t, j])) for j in range(k)) if k else "appendb")
-            elif c < 0.8:
-                calls.append("get %d" % r.randrange(0, 6))
-            elif c < 0.9:
-                calls.append("has %d" % r.randrange(0, 6))
-            else:
+                calls.append("apply %d" % i)
+            elif c < 0.65:
+                calls.append("get %d" % j)
+            elif c < 0.73:
+                calls.append("has %d" % j)
+            elif c < 0.86:
                 calls.append("info")
+            elif c < 0.93:
+                calls.append("missing %d" % j)
+            else:
+                calls.append("prove %d" % j)
         tasks.append(calls)
-    return tasks
+    return blocks, have, tasks
+
+
+SLOW_US = 600     # > the 500 us after which async_lock::Mutex hands the lock over to a starved waiter
+
+
+def run_world(impl, res, cmds):
+    """runs the schedules of one world; returns True when a violation was recorded"""
+    for cmd in cmds:
+        a = impl.cmd(cmd)
+        res.count("schedules")
+        if " slow=" in cmd:
+            res.count("schedules_slow")
+        if cmd.startswith("schedr"):
+            res.count("schedules_replica")
+        v = judge(cmd, a)
+        if v is None:
+            res.count("calls", a.count(" "))
+            continue
+        res.violations.append(dict(key=v["key"], what=v["what"], replay=dict(cmd=cmd, answer=a[:3000])))
+        return True
+    return False
 
 
 def main(tier, seed):
@@ -149,45 +310,82 @@ def main(tier, seed):
     build_harness()
     r = random.Random(seed)
     impl = impl_server(watchdog_ms=60000)
+    quick = tier == "quick"
     try:
-        nworld = 60 if tier == "quick" else 1500
-        for k in range(nworld):
+        # (1) writer worlds
+        for k in range(80 if quick else 4000):
             nt = r.choice([2, 2, 3, 4]); nc = r.choice([1, 2, 3, 4])
             tasks = gen_tasks(r, nt, nc)
-            seeds = range(12) if (nt == 2 and nc <= 2) else [r.randrange(10 ** 6) for _ in range(3)]
-            for sd in seeds:
-                cmd = "sched S %d %d %s" % (sd, nt, " | ".join(" ; ".join(c) for c in tasks))
-                a = impl.cmd(cmd)
-                res.count("schedules")
-                if not a.startswith("ok"):
-                    res.violations.append(dict(key="sched:crash", what="concurrent run answered " + a[:160], replay=dict(cmd=cmd)))
-                    break
-                recs = []
-                for tok in a.split(" ")[1:]:
-                    t, i, s, e, rest = tok.split(".", 4)
-                    recs.append(dict(task=int(t), idx=int(i), start=int(s), end=int(e), result=rest.replace(",", " "),
-                                     call=tasks[int(t)][int(i)]))
-                res.count("calls", len(recs))
-                if len(recs) != sum(len(t) for t in tasks):
-                    res.violations.append(dict(key="sched:lost-call", what="%d of %d calls completed" % (len(recs), sum(len(t) for t in tasks)), replay=dict(cmd=cmd, answer=a[:500])))
-                    break
-                if not linearizable(recs):
-                    res.violations.append(dict(key="sched:not-linearizable", what="no sequential order of the calls explains the results: " + a[:300],
-                                               replay=dict(cmd=cmd, answer=a[:1500])))
-                    break
-                # append outcomes: gap-free increasing lengths
-                lens = sorted(int(x["result"].split(" ")[1]) for x in recs if x["call"].startswith("append") and x["result"].startswith("ok"))
-            res.add_case((nt, nc, tuple(tuple(t) for t in tasks)), True, sample=dict(tasks=tasks) if k % 12 == 0 else None)
+            seeds = list(range(12)) if (nt == 2 and nc <= 2) else [r.randrange(10 ** 6) for _ in range(3)]
+            cmds = [sched_cmd(sd, tasks) for sd in seeds]
+            bigb = any(c.startswith("appendb") and c.count(",") >= 8 for t in tasks for c in t)
+            nslow = 3 if bigb else (1 if r.random() < 0.3 else 0)
+            cmds += [sched_cmd(r.randrange(10 ** 6), tasks, SLOW_US) for _ in range(nslow)]
+            run_world(impl, res, cmds)
+            res.add_case(("w", nt, nc, tuple(tuple(t) for t in tasks)), True, sample=dict(tasks=tasks) if k % 12 == 0 else None)
             if len(res.violations) >= 3:
                 break
+        # (2) writer worlds with one long batch, mostly with waiters beyond the mutex's anti-starvation threshold
+        for k in range(16 if quick else 800):
+            if len(res.violations) >= 3:
+                break
+            tasks = gen_big_batch_tasks(r)
+            cmds = [sched_cmd(r.randrange(10 ** 6), tasks, SLOW_US) for _ in range(5)]
+            cmds += [sched_cmd(r.randrange(10 ** 6), tasks) for _ in range(2)]
+            run_world(impl, res, cmds)
+            res.add_case(("b", tuple(tuple(t) for t in tasks)), True, sample=dict(tasks=tasks) if k % 6 == 0 else None)
+        # (3) replica worlds
+        for k in range(70 if quick else 4000):
+            if len(res.violations) >= 3:
+                break
+            nt = r.choice([2, 2, 3, 4]); nc = r.choice([1, 2, 3, 4])
+            blocks, have, tasks = gen_replica_world(r, nt, nc)
+            seeds = list(range(12)) if (nt == 2 and nc <= 2) else [r.randrange(10 ** 6) for _ in range(4)]
+            cmds = [schedr_cmd(sd, tasks, blocks, have) for sd in seeds]
+            cmds += [schedr_cmd(r.randrange(10 ** 6), tasks, blocks, have, SLOW_US) for _ in range(1 if k % 2 == 0 else 0)]
+            run_world(impl, res, cmds)
+            res.add_case(("r", nt, nc, len(blocks), tuple(have), tuple(tuple(t) for t in tasks)), True,
+                         sample=dict(blocks=len(blocks), have=have, tasks=tasks) if k % 12 == 0 else None)
     finally:
         impl.close()
     return res.finish(
         "theorem C15_mutex_serializable (coq/props/C15.v): every interleaving of tasks whose methods are single critical sections of a "
         "mutex equals an atomic execution in lock-acquisition order; the premise is re-derived from src/replication/shared_core.rs on "
-        "every run (SharedShape.v, closed by vm_compute); the real SharedCore is run under a deterministic scheduler with a "
-        "preemption point at every storage operation and lock acquisition and judged by a linearizability checker",
-        "2-4 tasks x 1-4 calls; 12 schedules for the smallest configurations, 3 seeded schedules otherwise")
+        "every run (SharedShape.v, closed by vm_compute); the real SharedCore (a fresh writer core, and a replica core that receives "
+        "block proofs) is run under a deterministic scheduler with a preemption point at every storage operation and lock "
+        "acquisition, with and without waiters older than the mutex's 500 us anti-starvation threshold, and judged by a "
+        "linearizability checker against the sequential list / held-set specification",
+        "writer: 2-4 tasks x 1-4 calls (batches of 0-24 blocks), 12 schedules for the smallest configurations, 3 seeded schedules "
+        "otherwise, +1-3 slow schedules; long-batch worlds (17-33 blocks): 5 slow + 2 plain schedules; replica: 2-17 blocks, "
+        "2-4 tasks x 1-4 calls from apply/get/has/info/missing/prove, 12 or 4 schedules (+1 slow for every other world)")
+
+
+def replay(path):
+    j = json.load(open(path))
+    rp = j.get("replay") or {}
+    cmd = rp.get("cmd")
+    if not cmd:
+        print("nothing to replay in %s (%s)" % (path, j.get("kind")))
+        return 1
+    build_harness()
+    impl = impl_server(watchdog_ms=60000)
+    v = None
+    try:
+        # a schedule without `slow=` may depend on wall time (the mutex measures how long a waiter waited): a few tries
+        for _ in range(1 if " slow=" in cmd else 5):
+            a = impl.cmd(cmd)
+            v = judge(cmd, a)
+            if v:
+                break
+    finally:
+        impl.close()
+    print("command: %s" % cmd)
+    print("answer : %s" % a)
+    print("violation: %s" % (v["what"] if v else None))
+    if not v and rp.get("answer"):
+        w = judge(cmd, rp["answer"])
+        print("recorded answer: %s\nrecorded answer violates: %s" % (rp["answer"], w["what"] if w else None))
+    return 1 if v else 0
 
 
 if __name__ == "__main__":
